@@ -159,7 +159,9 @@ def _spell(cut, key):
             return int(cut), "int"
         if k == 2:
             return np.int64(int(cut)), "numpy.int64"
-    if k == 3 and float(np.float32(cut)) == float(cut):
+    with np.errstate(all="ignore"):
+        f32_ok = float(np.float32(cut)) == float(cut)
+    if k == 3 and f32_ok:
         return np.float32(cut), "numpy.float32"
     if k == 4:
         return np.float64(cut), "numpy.float64"
@@ -472,7 +474,25 @@ def run_case(case, ctx):
                 elif not (v < 0 or v >= 1e299):
                     return bad({"what": "prepared distance given for a pair beyond the cut-off / unreachable", "cut": cut,
                                 "s": ids2[s], "t": ids2[t], "got": v, "true_distance": d})
-    return held(sig, nt, sorted(cls))
+    res = held(sig, nt, sorted(cls))
+
+    def again():
+        # the same Network object, asked again after another case (another network) was built and queried
+        hr = random.Random(case["ord"] + 11)
+        for _ in range(6):
+            s, t = hr.randrange(n), hr.randrange(n)
+            r = M.call(net.shortest_distance, ids[s], ids[t])
+            d = D[s][t]
+            ok = (not M.is_raised(r)) and isinstance(r, (int, float)) and ((r < 0) if d == G.INF else (r >= 0 and G.close(r, d)))
+            if not ok:
+                return {"what": "shortest_distance(s,t) on a network that was queried before, asked again after ANOTHER "
+                                "network was built and queried in between, is not the minimum over permitted walks",
+                        "s": ids[s], "t": ids[t], "got": r, "true_distance": d,
+                        "graph": {"n": n, "edges": [e[:4] for e in spec["edges"]]}}
+        return None
+    if n <= 40:
+        res["again"] = again
+    return res
 
 
 def classify(case, witness):
